@@ -166,6 +166,7 @@ type worker struct {
 func startWorker() *worker {
 	cmd := exec.Command(os.Args[0], "worker")
 	cmd.Stderr = io.Discard
+	cmd.Env = append(os.Environ(), "GORACE=halt_on_error=1") // a detected data race kills the worker: the case is reported as CRASH
 	in, err := cmd.StdinPipe()
 	if err != nil {
 		panic(err)
